@@ -130,6 +130,9 @@ def _manager(col, rule="C12.R3"):
             any(e.target == ("attr", S.SELF, "__dict__") and e.value == sp for e in s2.of_kind("store"))
         if not restores:
             bad.append("__setstate__ does not restore the pickled __dict__ as it was")
+        extra = [S.show(t) for e in s2.of_kind("store") for t in S.alts(e.target) if S.is_attr(t, S.SELF) and t[2] != "__dict__"]
+        if extra:
+            bad.append(f"__setstate__ gives the restored manager state the pickled one did not have: {extra}")
     if "__getstate__" in mg.methods:
         s2 = sctx(repo, "Manager", "__getstate__", public=True)
         d = ("attr", S.SELF, "__dict__")
@@ -343,7 +346,58 @@ def _tasks_pickle_whole(col, rule="C12.R3"):
     col.count("task_classes", n)
 
 
+def _no_local_callables_in_state(col, rule="C12.R3"):
+    """what a task or the manager keeps in its __dict__ is pickled with it: a function defined inside a method (or a lambda) stored in an
+    attribute cannot be pickled, whenever in the object's life it is stored"""
+    repo = col.repo
+
+    def is_task(cn, depth=4):
+        c = repo.classes.get(cn)
+        return c is not None and (cn == "Task" or (depth > 0 and any(is_task(b, depth - 1) for b in c.base_names)))
+
+    def local_callable(c, fn, v, depth=2):
+        """v evaluates to a function defined in a method body (not importable by name)"""
+        nested = {x.name for x in ast.walk(fn) if isinstance(x, (ast.FunctionDef, ast.AsyncFunctionDef)) and x is not fn}
+        if isinstance(v, ast.Lambda):
+            return "a lambda"
+        if isinstance(v, ast.Name) and v.id in nested:
+            return f"the local function `{v.id}`"
+        if isinstance(v, ast.IfExp):
+            return local_callable(c, fn, v.body, depth) or local_callable(c, fn, v.orelse, depth)
+        if depth and isinstance(v, ast.Call) and isinstance(v.func, ast.Attribute) and isinstance(v.func.value, ast.Name) and v.func.value.id == "self":
+            r = repo.lookup(c, v.func.attr)
+            if r is not None:
+                k2, f2 = r
+                for ret in [x for x in ast.walk(f2) if isinstance(x, ast.Return) and x.value is not None]:
+                    w = local_callable(k2, f2, ret.value, depth - 1)
+                    if w:
+                        return f"{w} returned by {k2.name}.{f2.name}"
+        return None
+    n = 0
+    for cn, c in sorted(repo.classes.items()):
+        if not c.module.name.startswith("xdeps") or not (is_task(cn) or cn == "Manager"):
+            continue
+        if any(h in c.methods for h in ("__getstate__", "__reduce__", "__reduce_ex__")):
+            continue     # what travels is decided by the hook (judged by the rules on hooks)
+        for mname, fn in c.methods.items():
+            for x in ast.walk(fn):
+                if isinstance(x, ast.Assign):
+                    for t in x.targets:
+                        if isinstance(t, ast.Attribute) and isinstance(t.value, ast.Name) and t.value.id == "self":
+                            n += 1
+                            w = local_callable(c, fn, x.value)
+                            if w:
+                                col.add(rule, f"{cn}.{mname}#no-local-callable-in-state:{t.attr}", False, c.module.loc(x),
+                                        "instance state holds nothing pickle cannot reach by name", f"self.{t.attr} = {w}", positive=True)
+    if n < 10:
+        raise AnalysisError("tasks / manager: attribute stores not found -- anchor lost, cannot decide")
+    col.ok(rule, "tasks-and-manager#no-local-callable-in-state", "xdeps/tasks.py", "instance state holds nothing pickle cannot reach by name",
+           f"{n} attribute stores in the task classes and Manager inspected")
+
+
 def check(col: Collector):
+    with col.rule():
+        _no_local_callables_in_state(col)
     with col.rule():
         _containers_store_verbatim(col)
     with col.rule():
